@@ -13,6 +13,6 @@ Extraction "hier_model.ml" init step
   pin_weight get_hwires get_hcables get_hpins get_hwires_ALL
   inner_hwire outer_hwire hpins_of_hwire
   (* collections of roots, patterns (Hier/TraceRoots.v; matcher of Query/Patterns.v): *)
-  get_hwires_roots get_hcables_roots get_hpins_roots get_hports_roots pat_sel matches_b absolute_b get_ordered
+  get_hwires_roots get_hcables_roots get_hpins_roots get_hports_roots pat_sel pat_any_of matches_b absolute_b get_ordered
   (* cross-check of extraction + driver glue against vm_compute (harness/coq_eval.py): *)
   hanswer.
